@@ -778,3 +778,28 @@ Qed.
 
 Lemma doc_approx : 5.828 <= 3 + 2 * sqrt 2 < 5.829.
 Proof. pose proof sqrt2_bounds. lra. Qed.
+
+(* ------------------------------------------------------------------------------------ *)
+(* kappa is constant on weyl_equiv classes                                                *)
+(* ------------------------------------------------------------------------------------ *)
+
+Lemma weyl_neg_b a b c : weyl_kappa a (- b) c = weyl_kappa a b c.
+Proof. rewrite <- (weyl_swap_ab a (- b) c), weyl_neg_a. apply weyl_swap_ab. Qed.
+
+Lemma kappa_weyl_equiv t t' : weyl_equiv t t' -> kappaR (kak3 t) = kappaR (kak3 t').
+Proof.
+  induction 1 as [t|t u H IH|t u v H1 IH1 H2 IH2|a b c|a b c|a b c|a b c|a b c];
+    try (cbn [kak3]; rewrite !kappa_weyl).
+  - reflexivity.
+  - now symmetry.
+  - now rewrite IH1.
+  - symmetry. apply weyl_swap_ab.
+  - symmetry. apply weyl_swap_bc.
+  - symmetry. now rewrite weyl_neg_a, weyl_neg_b.
+  - symmetry. apply weyl_shift_a.
+  - symmetry. apply weyl_neg_a.
+Qed.
+
+Lemma kappa_weyl_equiv_basis {L} (d : weyl L) a b c :
+  weyl_equiv (weyl_coords d) (a, b, c) -> kappaR (kak_basis_coeffsR d) = kappaR (kak_coeffsR a b c).
+Proof. intros H. apply (kappa_weyl_equiv _ _ H). Qed.
